@@ -413,7 +413,8 @@ def authz_cases(run, insts, mode):
                 new.update(mf=lim["mf"], mi=lim["mi"])
                 # a limit error must not be "healed" by calling Authorize again on the same authorizer
                 extra = list(extra) + [("retry", {"op": "authorize"}), ("retryworld", {"op": "world"})]
-            for lab, op in [("new", new), ("add", dict({"op": "add", "az": c["az"]}, **addkw)),
+            mode = "" if addkw.get("dup") else ["", "block", "authorizer", "text"][(emb + a) % 4]
+            for lab, op in [("new", new), ("add", dict({"op": "add", "az": c["az"], "mode": mode}, **addkw)),
                             ("auth", {"op": "authorize"}), ("world", {"op": "world"})] + list(extra):
                 script.append(dict(op, a=a))
                 labels.append(name + "." + lab)
@@ -438,6 +439,8 @@ def authz_cases(run, insts, mode):
 
 def authz_judge(c, dc, o, mode):
     """Compare the observations of one instance with the expectations TLC exported. Returns list of discrepancy texts."""
+    if "harness" in o:
+        raise Infra("authz harness: " + o["harness"][:400])
     if "obs" not in o:
         return ["driver: " + json.dumps(o)[:300]]
     ob = dict(zip(dc["labels"], o["obs"]))
@@ -647,6 +650,7 @@ def life_case(run, i, c):
             op["t"] = h["arg"]["t"] - 1
         elif h["op"] == "add":
             op["az"] = h["arg"]
+            op["mode"] = ["", "block", "authorizer", "text"][(i + len(script)) % 4]
         elif h["op"] == "query":
             op["q"] = h["arg"]
         script.append(op)
@@ -668,6 +672,8 @@ def life_text(c):
 
 
 def life_judge(c, o):
+    if "harness" in o:
+        raise Infra("authz harness: " + o["harness"][:400])
     if "obs" not in o:
         return ["driver: " + json.dumps(o)[:300]]
     bad = []
@@ -1704,6 +1710,8 @@ def authz_l3(run, driver, label="L3 random program"):
         if o.get("crash") or "obs" not in o:
             if "build_error" in o:
                 continue
+            if "harness" in o:
+                raise Infra("authz harness: " + o["harness"][:400])
             run.report({"what": "crash"}, c, "authzgen", "%s: process died / harness error: %s" % (label, json.dumps(o)[:300]))
             continue
         ob = o["obs"]
